@@ -4,13 +4,15 @@ import vlib, simcommon
 
 PROP = "C05"
 PROPS_FILE = "props/C05.v"
-COQ_FILES = ["gen/Gen.v", "proofs/SnaProofs.v", "model/RPQ.v", "proofs/RPQProofs.v", "props/C05.v"]
+COQ_FILES = ["gen/Gen.v", "proofs/SnaProofs.v", "model/RPQ.v", "proofs/RPQProofs.v", "proofs/RPQWordProofs.v", "props/C05.v"]
 TRUSTED_BASE = [
     "Coq 8.16.1 kernel; vm_compute only in Examples/refutation witnesses; no native_compute",
     "translator (serial arithmetic, getMaxTSNOffset) + hand-written model coq/model/RPQ.v of receive_payload_queue.go",
     "extraction (ExtrOcamlBasic only) + /verif/ocaml/cmp_rpq.ml; Go harness zz_verif_rpq_test.go (overlay)",
-    "modelled, not verified: the []uint64 bitmap is a set of bit positions; the word-by-word gap scan is compared "
-    "against both the bit-level specification (theorems) and a word-level transcription (gap_blocks_w)",
+    "modelled, not verified: the []uint64 bitmap is a set of bit positions; the word-by-word gap scan of getGapAckBlocks "
+    "is transcribed as gap_blocks_w (TSN arithmetic, uint16 truncations, per-word first-(non)zero-bit search) and proved "
+    "equal to the bit-level specification gap_blocks for every reachable state of every configurable window "
+    "(c05_word_scan_is_spec); both are also compared with the implementation",
 ]
 ASSUMPTIONS = [
     "association level: every SACK emitted in simulated runs is re-derived (cumulative TSN, gap blocks) by the model from the emitter's "
